@@ -22,8 +22,10 @@ use vcore::{Report, Tier, Violation};
 // ---------------------------------------------------------------------------
 
 fn families_of(g: &G) -> Vec<u8> {
-    if g.n >= 5 {
+    if g.n >= 6 {
         vec![F_BIG] // large simple graphs: union-find / component algorithms only, cheap oracles
+    } else if g.n == 5 {
+        vec![F_SP] // the source-star family (star_graphs): shortest paths only
     } else if g.mincost {
         vec![F_MINCOST]
     } else if g.edges.iter().any(|e| e.2 == WN) {
@@ -35,7 +37,7 @@ fn families_of(g: &G) -> Vec<u8> {
 
 fn run_families(g: &G, fams: &[u8]) -> Out {
     wd_begin(g.short());
-    if g.n >= 5 {
+    if g.n >= 6 {
         // no exhaustive path model for large graphs
         let b = build(g);
         let mut out = Out::new();
@@ -358,6 +360,48 @@ fn graphs_of(sp: &Space) -> Vec<G> {
     out
 }
 
+/// Source-star family on 5 nodes for the shortest-path algorithms: node 0 reaches each of 1..4 directly (edge absent /
+/// weight 2; thorough also weight 1) and every subset of the 12 zero-weight edges among 1..4 is added (thorough: in two
+/// insertion orders).  Label-correcting algorithms must keep relaxing while distances still shrink although every node has been
+/// reached: chains of cheap edges that run against the edge enumeration order need one round per link, which the
+/// <= 4-node spaces cannot express (three links against the order need five nodes).
+fn star_graphs(tier: Tier) -> Vec<G> {
+    let star_w: Vec<u8> = if tier == Tier::Quick { vec![WM + 100, W2] } else { vec![WM + 100, W1, W2] }; // WM+100 = absent
+    let inner: Vec<(u8, u8)> = (1..5u8).flat_map(|u| (1..5u8).filter(move |v| *v != u).map(move |v| (u, v))).collect();
+    let mut out = vec![];
+    let combos = star_w.len().pow(4);
+    for sc in 0..combos {
+        let mut star = vec![];
+        let mut x = sc;
+        for t in 1..5u8 {
+            let w = star_w[x % star_w.len()];
+            x /= star_w.len();
+            if w != WM + 100 {
+                star.push((0u8, t, w, WM));
+            }
+        }
+        if star.is_empty() {
+            continue;
+        }
+        for mask in 0u32..(1 << inner.len()) {
+            let mut edges = star.clone();
+            for (k, &(u, v)) in inner.iter().enumerate() {
+                if mask & (1 << k) != 0 {
+                    edges.push((u, v, W0, WM));
+                }
+            }
+            let g = G { n: 5, edges, ints: false, mincost: false };
+            let mut rev = g.clone();
+            rev.edges.reverse();
+            out.push(g);
+            if tier == Tier::Thorough {
+                out.push(rev); // second insertion order
+            }
+        }
+    }
+    out
+}
+
 fn spaces(tier: Tier) -> Vec<Space> {
     let mut v = vec![];
     let mut add = |n: u8, ks: std::ops::RangeInclusive<usize>, alph: Alph, ints: bool| {
@@ -459,7 +503,7 @@ fn run(args: vcore::Args) -> i32 {
     let tier = args.tier;
     let mut rep = Report::new("C19", tier, "exploration");
     rep.max_samples = 12;
-    rep.rule = "ENUM: every labelled directed multigraph (self-loops, parallel and antiparallel edges, isolated nodes) of the listed (nodes, edges) shapes x every weight assignment from {1,2,0,missing} (plus -1 for Bellman-Ford/Floyd-Warshall; (capacity,cost) pairs for min-cost flow), each in two insertion orders, plus every labelled simple undirected graph on 6 (thorough: and 7) nodes with pairwise distinct weights in three insertion/orientation variants for the union-find / component algorithms, x every source/target/start choice and parameter variant; each real call is compared with a brute-force oracle (exhaustive simple-path, cycle, edge-subset, cut and integral-flow enumeration). evaluations = calls into the real code whose result was checked; a case is distinct by (graph, insertion order, property type) and non-trivial when it has at least one edge".into();
+    rep.rule = "ENUM: every labelled directed multigraph (self-loops, parallel and antiparallel edges, isolated nodes) of the listed (nodes, edges) shapes x every weight assignment from {1,2,0,missing} (plus -1 for Bellman-Ford/Floyd-Warshall; (capacity,cost) pairs for min-cost flow), each in two insertion orders, plus the source-star family on 5 nodes for the shortest-path algorithms (0 -> i absent or weighted, every subset of the 12 zero-weight edges among 1..4, two insertion orders), plus every labelled simple undirected graph on 6 (thorough: and 7) nodes with pairwise distinct weights in three insertion/orientation variants for the union-find / component algorithms, x every source/target/start choice and parameter variant; each real call is compared with a brute-force oracle (exhaustive simple-path, cycle, edge-subset, cut and integral-flow enumeration). evaluations = calls into the real code whose result was checked; a case is distinct by (graph, insertion order, property type) and non-trivial when it has at least one edge".into();
     let sps = spaces(tier);
     let mut space_rows = vec![];
     let mut sig_counts: BTreeMap<String, u64> = BTreeMap::new();
@@ -496,6 +540,40 @@ fn run(args: vcore::Args) -> i32 {
             }
         }
         space_rows.push(json!({"nodes": sp.n, "edges": sp.k, "alphabet": format!("{:?}", sp.alph), "int64_properties": sp.ints, "graphs_incl_insertion_orders": graphs.len(), "real_calls_checked": evals}));
+    }
+    // source-star family (shortest paths on 5 nodes)
+    {
+        let graphs = star_graphs(tier);
+        let blocks: Vec<&[G]> = graphs.chunks(BLOCK).collect();
+        let shards = vcore::par_map(&blocks, vcore::cores(), |i, blk| run_block(blk, i % 257 == 1));
+        let mut evals = 0;
+        let mut samples = 0;
+        for sh in shards {
+            evals += sh.evals;
+            rep.evaluations += sh.evals;
+            total_graphs += sh.graphs;
+            for h in sh.nontrivial {
+                rep.nontrivial_hash(h);
+            }
+            for (k, v) in sh.tol {
+                *tol.entry(k).or_default() += v;
+            }
+            if let Some(s) = sh.sample {
+                if samples < 1 {
+                    samples += 1;
+                    rep.max_samples += 1;
+                    rep.sample(s);
+                }
+            }
+            for v in sh.viols {
+                let n = sig_counts.entry(v.sig_string()).or_default();
+                *n += 1;
+                if *n <= CAP_PER_SIG {
+                    rep.violation(v);
+                }
+            }
+        }
+        space_rows.push(json!({"nodes": 5, "edges": "1..=16", "alphabet": "source-star: 0->i absent / 2 (thorough: / 1), every subset of the 12 zero-weight edges among 1..4", "int64_properties": false, "graphs_incl_insertion_orders": graphs.len(), "real_calls_checked": evals}));
     }
     // large simple graphs for the union-find / component algorithms (family union_find_large)
     let big_ns: Vec<usize> = if tier == Tier::Thorough { vec![6, 7] } else { vec![6] };
